@@ -39,8 +39,8 @@ def main(tier, seed):
     chk = Check("C11", tier, seed)
     chk.assumptions = list(ASSUMPTIONS)
     c11.obligations(chk)
-    if tier == "thorough":
-        fails, n, d = c11_concrete.search(stop_at=3, max_len=3)
+    if tier in ("quick", "thorough"):
+        fails, n, d = c11_concrete.search(stop_at=3, max_len=3 if tier == "thorough" else 2)
         chk.bounded.append({"name": "bounded cross-check: wrapper chains of length <= 3 at root / list / dict / tuple / union positions, and string / ForwardRef references from 2 call depths",
                             "evaluations": n, "distinct_nontrivial": d, "failures": len(fails),
                             "rule": "6 base types x chains over {NewType, TypeAliasType, Final} x 5 positions x 3 inputs, compared with the plain type (unmarshal and marshal)"})
